@@ -1,9 +1,10 @@
 (* Corr/C36.v -- correspondence glue for C36. Each case carries inputs and what the real
    mitmproxy.io.tnetstring / FlowReader did; check_case recomputes it with Model/Tnet.v.
    float() and Flow.from_state(compat.migrate_flow(.)) are parameters of the model: their
-   observed results on exactly the arguments they were called with come as tables. *)
+   observed results on exactly the arguments they were called with come as tables. The handler
+   sets of FlowReader.stream are translated from the source (Gen/FlowReaderExcept.v). *)
 From Coq Require Import List Bool NArith ZArith.
-From MV Require Import Base.Bytes Model.Tnet.
+From MV Require Import Base.Bytes Model.Tnet Gen.FlowReaderExcept.
 Import ListNotations.
 
 Definition ftable := list (bytes * option (bytes * option Z)).
@@ -54,6 +55,6 @@ Definition check_case (c : case) : bool :=
   | Load depth ft file impl => option_eqb outcome_eqb (of_load (load (flookup ft) depth file)) (Some impl)
   | Pop depth ft data impl => option_eqb outcome_eqb (of_pop (pop (flookup ft) depth data)) (Some impl)
   | Stream depth ft fs file vals fin =>
-      let r := stream (flookup ft) outer_current inner_current (slookup fs) depth file in
+      let r := stream (flookup ft) outer_gen inner_gen (slookup fs) depth file in
       list_eqb tv_eqb (fst r) vals && final_eqb (snd r) fin
   end.
